@@ -314,11 +314,24 @@ def bounded(K):
                 b = str2array(s)
                 if b.dtype != bool or [int(c) for c in s] != [int(x) for x in b]:
                     bad.append({'string': s, 'got': str(b)})
-        for s, dt, exp in (('1 0 1', int, [1, 0, 1]), ('1,0;0,1', float, [[1., 0.], [0., 1.]]), ('10 11', int, [10, 11]), ('1 2 3', float, [1., 2., 3.]), ('1 2', complex, [1 + 0j, 2 + 0j])):
+        # explicit dtype: honoured for every numeric dtype; text made only of 0/1 digits is then read token by token, not digit by digit
+        cases = [('1 0 1', [1, 0, 1]), ('1,0;0,1', [[1, 0], [0, 1]]), ('10 11', [10, 11]), ('1 0 1 10', [1, 0, 1, 10]), ('10 11 0; 1 100 1', [[10, 11, 0], [1, 100, 1]]),
+                 ('1 2 3', [1, 2, 3]), ('1 2', [1, 2]), ('110', [110]), ('0, 1, 11', [0, 1, 11]), ('7;8', [[7], [8]])]
+        for s, exp in cases:
+            for dt in (int, float, complex):
+                n += 1
+                strings.add((s, dt.__name__))
+                try:
+                    b = str2array(s, dt)
+                    if b.dtype != np.dtype(dt) or b.shape != np.array(exp).shape or not np.array_equal(b, np.array(exp, dtype=dt)):
+                        bad.append({'string': s, 'dtype': dt.__name__, 'got': str(b), 'expected': str(exp)})
+                except Exception as e:
+                    bad.append({'string': s, 'dtype': dt.__name__, 'raised': repr(e)})
+        for s, exp in (('1 0 1', [1, 0, 1]), ('101', [1, 0, 1]), ('10;01', [[1, 0], [0, 1]])):
             n += 1
-            b = str2array(s, dt)
-            if b.dtype != np.dtype(dt) or not np.array_equal(b, np.array(exp, dtype=dt)):
-                bad.append({'string': s, 'dtype': str(dt), 'got': str(b)})
+            b = str2array(s, bool)
+            if b.dtype != bool or not np.array_equal(b, np.array(exp, dtype=bool)):
+                bad.append({'string': s, 'dtype': 'bool', 'got': str(b)})
         for s in ('1 2 a', '3$4', '1,2;x', 'hello', '1e3', '0x10'):
             n += 1
             try:
